@@ -49,9 +49,9 @@ Proof.
       rewrite (more_pass_chars b (Z.abs rem)) by assumption.
       rewrite div6 in K2.
       repeat split.
-      * f_equal; [lia|]. rewrite <- !app_assoc. reflexivity.
-      * rewrite !app_length in *. cbn [length]. lia.
-      * lia.
+      * f_equal; [clear; lia|]. rewrite <- !app_assoc. reflexivity.
+      * rewrite !app_length in K1 |- *. cbn [length]. clear - K1. lia.
+      * clear - K2. lia.
 Qed.
 
 (* the do-while loop for 'x' (and 'X' after hex_digits += 16) *)
@@ -93,9 +93,9 @@ Proof.
       rewrite (hex_more upp (Z.abs rem)) by assumption.
       rewrite div4 in K2.
       repeat split.
-      * f_equal; [lia|]. rewrite <- !app_assoc. reflexivity.
-      * rewrite !app_length in *. cbn [length]. lia.
-      * lia.
+      * f_equal; [clear; lia|]. rewrite <- !app_assoc. reflexivity.
+      * rewrite !app_length in K1 |- *. cbn [length]. clear - K1. lia.
+      * clear - K2. lia.
 Qed.
 
 (* ---------- from the loop to the text ---------- *)
@@ -282,7 +282,7 @@ Proof.
       rewrite M2 by lia.
       assert (B2 : (65536 <=? v) && (v <=? 1114111) = true) by lia. rewrite B2. reflexivity.
     + destruct (Z.leb_spec v 127); [|reflexivity].
-      destruct (Z.ltb_spec v 0); [lia|reflexivity].
+      cbv zeta. rewrite M1 by lia. destruct (Z.ltb_spec 127 v); [lia|reflexivity].
 Qed.
 
 (* the test as written agrees with the repaired one below 0x200000 and for 8/16-bit types *)
